@@ -296,16 +296,21 @@ def rule_OA(run: Run) -> RuleResult:
             for c in _astu.calls_in(fn):
                 if isinstance(c.func, _ast.Attribute) and _astu.is_self_attr(c.func) and cls.find_method(c.func.attr) and c.func.attr not in OPS:
                     args = []
-                    for a in list(c.args) + [k.value for k in c.keywords]:
+                    hfn = cls.find_method(c.func.attr)[1]
+                    n_named = len(hfn.args.posonlyargs + hfn.args.args) - 1     # without self
+                    for i_a, a in enumerate(list(c.args) + [k.value for k in c.keywords]):
                         a2 = _astu.expand_locals(a, amap, keep=frozenset([pname]))
                         t = _astu.norm_opts(a2)
                         for opn in ("evaluate", "validate", "keys", "explain", "transform"):
                             t = t.replace(f"'{opn}'", "'<op>'")
                         t = t.replace(pname, "<options>")
-                        # what must agree is which operation and which options are handed on; further arguments
-                        # (the value an effect receives, …) belong to the operation
-                        if t in ("'<op>'", "<options>", "<options> or {}") or t.startswith("mix("):
-                            args.append(t)
+                        if i_a >= len(c.args):
+                            t = f"{c.keywords[i_a - len(c.args)].arg}={t}"
+                        # arguments forwarded to the operation through *args (the value an effect receives, …) belong to
+                        # the operation; what must agree there is only which options are handed on
+                        if i_a < len(c.args) and i_a >= n_named and hfn.args.vararg is not None and t not in ("'<op>'", "<options>", "<options> or {}"):
+                            continue
+                        args.append(t)
                     calls.setdefault(c.func.attr, {}).setdefault(op, set()).add((tuple(args), ()))
         for helper, per_op in calls.items():
             if "evaluate" not in per_op or len(per_op) < 2:
